@@ -217,6 +217,16 @@ func scaledSentences() (conds []c09Str, cvals val.Item, upds []c09Str, uvals val
 	for _, fn := range []string{"begins_with(a, :long)", "contains(a, :long)", "a = :long", "a < :long", "a BETWEEN :v1 AND :long", "contains(:long, a)", "begins_with(:long, :v1)"} {
 		conds = append(conds, c09Str{fn, "scaled-operand"})
 	}
+	// a function that yields a condition (every function but size) standing where an OPERAND is expected: as an
+	// operand of a comparator, BETWEEN or IN, or as an argument of another function. ":m3" is BOOL true, so a
+	// liberal evaluator finds the comparison well-typed and answers instead of refusing
+	for _, c := range []string{"attribute_exists(a) = :m3", ":m3 = attribute_exists(a)", "begins_with(a, :v1) = :m3", "attribute_not_exists(nope) = attribute_exists(a)", "attribute_exists(a) <> f",
+		"attribute_exists(a) IN (:m3)", "f IN (attribute_exists(a), :m3)", "f IN (:m3, contains(a, :v1))", "attribute_type(a, :s1) = f", "attribute_exists(attribute_exists(a))", "attribute_not_exists(begins_with(a, :v1))",
+		"contains(c, attribute_exists(a))", "begins_with(contains(a, :v1), :v1)", "a BETWEEN attribute_exists(a) AND :v1", "f BETWEEN :m3 AND contains(a, :v1)", "contains(a, :v1) BETWEEN :m3 AND :m3",
+		"(attribute_exists(a)) = :m3", "NOT attribute_exists(a) = :m3", "size(attribute_exists(a)) > :n1", "f = attribute_exists(a) AND a = :v1", "a = :v1 OR attribute_exists(a) <> f",
+		"attribute_exists(a) = :m3 AND attribute_exists(nope)", "attribute_type(f, attribute_exists(a))"} {
+		conds = append(conds, c09Str{c, "function-as-operand"})
+	}
 	big := []string{}
 	bigL := []val.V{}
 	for i := 0; i < 100; i++ {
@@ -307,6 +317,18 @@ func (p *c09) checkCond(x *res, s c09Str, names map[string]string, values val.It
 		}
 	}
 	if viaClient {
+		// the debug mode of the interpreter (Client.ActivateDebug) only reports: same verdict, no fault - whatever
+		// the parser made of the string
+		inDebugMode(func() {
+			dgot, dmsg, dsite, _ := matchDirect(s.s, names, c09Item, values)
+			x.r.Evals++
+			x.r.Counters["debug_mode_replays"]++
+			if dgot == 0 {
+				x.viol("runtime-panic", "debug-mode/"+dsite, fmt.Sprintf("condition %q in debug mode: runtime panic at %s: %s (without debug mode: %s)", s.s, dsite, dmsg, outcomeName(got)), wit)
+			} else if dgot != got {
+				x.viol("debug-mode-changes-verdict", "condition", fmt.Sprintf("condition %q evaluates to %s, in debug mode to %s", s.s, outcomeName(got), outcomeName(dgot)), wit)
+			}
+		})
 		p.condViaClient(x, s, names, values, got, sentence, ctx)
 	}
 }
@@ -467,6 +489,16 @@ func (p *c09) checkUpdate(x *res, s c09Str, names map[string]string, values val.
 		x.viol("rejected-update-changed-item", "update", fmt.Sprintf("update %q was rejected (%s) but changed the item: %s", s.s, msg, diffAttrs(after, base)), wit)
 	}
 	if viaClient {
+		inDebugMode(func() {
+			dgot, dmsg, dsite, dafter := updateDirect(s.s, names, base, values)
+			x.r.Evals++
+			x.r.Counters["debug_mode_replays"]++
+			if dgot == "panic" {
+				x.viol("runtime-panic", "debug-mode/"+dsite, fmt.Sprintf("update %q in debug mode: runtime panic at %s: %s (without debug mode: %s)", s.s, dsite, dmsg, got), wit)
+			} else if dgot != got || !val.ItemsEqual(dafter, after) {
+				x.viol("debug-mode-changes-verdict", "update", fmt.Sprintf("update %q: %s, in debug mode %s; items differ: %s", s.s, got, dgot, diffAttrs(dafter, after)), wit)
+			}
+		})
 		for _, adapter := range adapt.Adapters {
 			spec := mon.SpecHashOnly("tbl09")
 			cl, _, ds := freshClient(adapter, spec)
